@@ -12,7 +12,7 @@ on it (the matcher correspondence does: it falls back to what it could extract).
 import ast
 import os
 
-STEPS_PY = '/repo/sismic/bdd/steps.py'
+STEPS_PY = os.path.join(os.environ.get('VERIF_REPO', '/repo'), 'sismic/bdd/steps.py')
 OUT = '/verif/coq/gen/GeneratedSteps.v'
 DECORATORS = ('given', 'when', 'then', 'step')
 
